@@ -20,6 +20,9 @@ inductive VarKind where
   | modGlobal     -- module-level assignment target / target of a `global` statement
   | classAttr     -- class-body assignment target
   | mutDefault    -- parameter whose default value is a mutable object
+  | external      -- process-global state of another library reached through library calls (PyTables' open-file
+                  -- registry, the warnings filters, the logging configuration): a named, reviewed item
+  | instAttr      -- instance attribute: state of ONE object, shared by the calls made on that object (Gen/Handlers)
   | opaque        -- a construct the scan could not classify (always emitted as read-before-write + write)
 deriving DecidableEq, Repr, Inhabited
 
@@ -78,6 +81,22 @@ def Table.okModulo (t : Table) (names : Array String) (known : List String) : Bo
   t.violations.all fun p => match names[p.2]? with
     | some s => known.contains s
     | none => false
+
+/-- the table without the entries whose name is listed in `drop` (used with `drop` = the configuration entries: what
+    is left are the loader entry points, the handler methods and the methods of the document classes) -/
+def Table.without (t : Table) (drop : List Nat) : Table :=
+  ⟨t.vars, t.entries.filter (fun e => !drop.contains e.name)⟩
+
+/-- configuration variables (those named in `env`) are written by configuration entries (`envEntries`) only: no
+    loader entry point, handler or document method ever flips a configuration switch -/
+def Table.envOnly (t : Table) (names : Array String) (env : List String) (envEntries : List Nat) : Bool :=
+  t.entries.all fun e => envEntries.contains e.name || e.writes.all fun v =>
+    match names[v]? with
+    | some s => !env.contains s
+    | none => true
+
+/-- every name of `l` occurs in `m` -/
+def subsetStr (l m : List String) : Bool := l.all (fun s => m.contains s)
 
 /-! ### meaning of a summary -/
 
@@ -160,5 +179,30 @@ def merges : List ca → List cb → List (List (Ev ca cb))
   | [], ys => [ys.map .b]
   | xs, [] => [xs.map .a]
   | x :: xs, y :: ys => (merges xs (y :: ys)).map (.a x :: ·) ++ (merges (x :: xs) ys).map (.b y :: ·)
+
+/-! ### any number of builders stepping in an interleaving
+
+`n` builders of the same kind (index = builder), all driven by handler calls of type `c`; an event `(i, x)` is the
+call `x` issued by builder `i`.  The two-builder `Sys` above is kept for the heterogeneous case. -/
+
+structure SysN (σ α c : Type) where
+  step : σ → α → c → σ × α
+
+variable {c : Type}
+
+def updN (f : Nat → α) (i : Nat) (x : α) : Nat → α := fun j => if j = i then x else f j
+
+def runN (S : SysN σ α c) : List (Nat × c) → σ × (Nat → α) → σ × (Nat → α)
+  | [], st => st
+  | (i, x) :: es, (s, f) => let r := S.step s (f i) x; runN S es (r.1, updN f i r.2)
+
+def soloN (S : SysN σ α c) : List c → σ × α → σ × α
+  | [], st => st
+  | x :: xs, (s, a) => soloN S xs (S.step s a x)
+
+/-- the calls builder `i` issues in a schedule, in order -/
+def projN (i : Nat) : List (Nat × c) → List c
+  | [] => []
+  | (j, x) :: es => if j = i then x :: projN i es else projN i es
 
 end NmlVerif.Glue
